@@ -11,7 +11,8 @@ PROPS = {
     }
 }
 DEVIATIONS = {"AllowFirst": "C23_DenyOverrides", "UnknownDeny": "C23_DefaultOtherwise", "KnownNoMatchDeny": "C23_DefaultOtherwise",
-              "PrefixExact": "C23_DenyOverrides", "Whitelist": "C23_AllowMonotone", "SqlAllowFirst": "C23_DenyOverrides"}
+              "PrefixExact": "C23_DenyOverrides", "Whitelist": "C23_AllowMonotone", "SqlAllowFirst": "C23_DenyOverrides",
+              "Superuser": "C23_DenyOverrides"}
 W = 6
 SQLMOD = "addons/processors/sql-processor"
 
@@ -80,17 +81,23 @@ def observe_chunks(ctx, rows, extra, nchunks):
 
 def check(ctx, prop):
     quick = ctx.quick()
-    d = T.stage(ctx, DIR, "mc")
-    mc = T.model_check(ctx, d, "MC_Acl.tla", "MC_Acl_%s.cfg" % ctx.tier, workers=W, coverage=not quick, timeout=3000)
+    # two exhaustive configurations, run together: the tier's main domain (narrow rule alphabet, <=2 allow <=1 deny, second
+    # principal, sql branch) and the wide one (wildcard and specific action/resource/name forms incl. resource "*" and
+    # "group", <=1 allow <=1 deny) so that catch-all rules meet specific deny rules in every tier
+    def mc_run(cfg, cov):
+        dd = T.stage(ctx, DIR, "mc-" + cfg)
+        return T.model_check(ctx, dd, "MC_Acl.tla", cfg, workers=W if cfg != "MC_Acl_wide.cfg" else 3, coverage=cov, timeout=3000)
+    mc, mcw = par([lambda: mc_run("MC_Acl_%s.cfg" % ctx.tier, not quick), lambda: mc_run("MC_Acl_wide.cfg", False)])
     alpha = (mc.prints.get("ALPHA") or [None])[0]
     enum = mc.prints.get("INPUT", [])
-    if not alpha or not enum:
+    wide = mcw.prints.get("INPUT", [])
+    if not alpha or not enum or not wide or (mcw.prints.get("ALPHA") or [None])[0] != alpha:
         raise Broken("the model printed no alphabet / inputs")
     if not quick:
         cov_actions = {k: v[1] for k, v in mc.action_coverage().items() if k in ("SetDefault", "AddRule", "AddAnon", "StartSql", "SqlAdd")}
         if any(v == 0 for v in cov_actions.values()) or len(cov_actions) < 5:
             raise Broken("vacuous model run: action coverage %s" % cov_actions)
-    ctx.log("model: %d distinct states, %d configurations enumerated (%d sql)" % (mc.distinct, len(enum), sum(1 for h in enum if is_sql(h))))
+    ctx.log("model: %d + %d distinct states, %d + %d configurations enumerated (%d sql)" % (mc.distinct, mcw.distinct, len(enum), len(wide), sum(1 for h in enum if is_sql(h))))
     # counterexamples of the named wrong designs (regression inputs), independent TLC runs started together
     devs = sorted(DEVIATIONS)
 
@@ -103,7 +110,11 @@ def check(ctx, prop):
             raise Broken("deviation %s no longer violates %s in the model (vacuous deviation)" % (dev, DEVIATIONS[dev]))
         inputs.append(h); labels.append("dev:" + dev)
     # the enumerated domain: all of it in the quick tier; in the thorough tier all sql configurations and a seeded sample of the broker ones
-    enum.sort(key=lambda h: json.dumps(h, sort_keys=True))
+    def key(h):
+        return json.dumps(h, sort_keys=True)
+    enum.sort(key=key)
+    seen = {key(h) for h in enum}
+    wide = sorted((h for h in wide if key(h) not in seen), key=key)
     cap = 6000
     if len(enum) > cap:
         rnd = random.Random(ctx.seed)
@@ -114,6 +125,8 @@ def check(ctx, prop):
         enum_run = sql + small + rnd.sample(rest, cap - len(sql) - len(small))
     else:
         enum_run = enum
+    enum_run = enum_run + wide     # the wide configurations are always run in full
+    enum = enum + wide
     for h in enum_run:
         inputs.append(h); labels.append("enum")
     ctx.log("%d configurations to evaluate (%d deviation counterexamples, %d of %d enumerated)" % (len(inputs), len(devs), len(enum_run), len(enum)))
@@ -121,7 +134,7 @@ def check(ctx, prop):
     decisions = sum(len(r["res"]) * (1 + len(r["less"])) for r in rows)
     ctx.log("harness: %d configurations, %d real decisions" % (len(rows), decisions))
     badO, badM, badC = corrupt(rows)
-    viol = observe_chunks(ctx, rows, [badO, badM], 1 if quick else 4)
+    viol = observe_chunks(ctx, rows, [badO, badM], 2 if quick else 4)
     n = len(rows)
     if not any(l == n + 1 and v == "C23_DenyOverrides" for l, v, _ in viol):
         raise Broken("binding self-test: observation layer did not flag a flipped decision under a matching deny rule")
@@ -160,8 +173,8 @@ def check(ctx, prop):
         ctx.log("DRIFT: conformance layer rejected line %d although C23 held: %s" % (reached + 1, json.dumps(conf["first_rejection"])[:600]))
     nontrivial = sum(1 for r in rows if {x[1] for x in r["rules"]} == {"allow", "deny"})
     cov = {
-        "states": mc.distinct, "transitions": mc.generated, "depth": mc.depth, "exhaustive": True,
-        "model_config": "MC_Acl_%s.cfg" % ctx.tier,
+        "states": mc.distinct + mcw.distinct, "transitions": mc.generated + mcw.generated, "depth": mc.depth, "exhaustive": True,
+        "model_config": "MC_Acl_%s.cfg + MC_Acl_wide.cfg" % ctx.tier,
         "traces_validated_against_impl": len(rows), "trace_events": len(rows), "real_decisions": decisions,
         "evaluations": len(rows), "distinct_nontrivial": nontrivial,
         "configurations_enumerated": len(enum), "sql_configurations": sum(1 for r in rows if r["impl"] == "sql"),
